@@ -369,6 +369,7 @@ func (f *Frame) doCall(ci ssa.CallInstruction, st *State, reach Term) []Term {
 	}
 	for sel, k := range f.siteOrd[ci] {
 		f.callRes[fmt.Sprintf("%s#%d", sel, k)] = vals
+		f.callRes[fmt.Sprintf("reach:%s#%d", sel, k)] = []Val{{T: reach, GT: types.Typ[types.Bool]}}
 	}
 	return out
 }
@@ -873,7 +874,7 @@ func (f *Frame) applyContract(p callPlan, args []Val, st *State, reach Term, whe
 	post := f.calleeEnv(p, args, st, pre)
 	bindResultNames(post, fc, results, res)
 	for _, en := range fc.Ensures {
-		if strings.Contains(en.Src, "res(") {
+		if strings.Contains(en.Src, "res(") || strings.Contains(en.Src, "called(") {
 			// internal postcondition over the callee's own call results: not visible to callers
 			continue
 		}
